@@ -216,7 +216,9 @@ def build_tree(root, spec):
                     f.truncate(ent['size'])
         if 'mode' in ent and k != 'symlink':
             os.chmod(p, ent['mode'])
-        if 'mtime' in ent and k != 'symlink':
+        if 'mtime_ns' in ent and k != 'symlink':
+            os.utime(p, ns=(ent['mtime_ns'], ent['mtime_ns']))
+        elif 'mtime' in ent and k != 'symlink':
             os.utime(p, (ent['mtime'], ent['mtime']))
 
 
